@@ -11,8 +11,8 @@
 //	-mode concurrent  message sets validated from 8 goroutines on one validator; recorded as batches.
 //	-mode repro       re-runs one saved violation.
 //
-// MONITORS (independent of the operational spec).  C08: validator-panic, validator-hang, unbounded-allocation,
-// decoder-panic:<decoder>.  C09: accepted:<rule> from valkit.Monitor (the statement of C09 evaluated on the
+// MONITORS (independent of the operational spec).  C08: validator-panic, validator-hang (a call slower than 2 s that is
+// that slow again in three repeats, or one that does not return within 30 s), unbounded-allocation, decoder-panic:<decoder>.  C09: accepted:<rule> from valkit.Monitor (the statement of C09 evaluated on the
 // concrete accepted bytes, the concrete clock and the concrete history).
 package main
 
@@ -148,6 +148,9 @@ func (w *world) violate(sig, desc, beh string, stepNo int, r repro) {
 func (w *world) validate(p *valkit.Peer, mon *valkit.Monitor, m valkit.Msg, t valkit.TimePoint, heavy bool, beh string, stepNo int, prefix []step) (valkit.Outcome, string) {
 	c := w.concretise(m)
 	o := p.ValidatePubsub(c.Topic, c.Data, t.Slot(), t.Offset(), heavy)
+	if o.Class == "hang" && !w.confirmSlow(func() bool { return p.ValidatePubsub(c.Topic, c.Data, t.Slot(), t.Offset(), heavy).Class == "hang" }) {
+		o.Class, o.TimeOK = "slow", false // a scheduling stall of the loaded machine, not a property of the input: no verdict, nothing compared
+	}
 	g := ""
 	pr := step{m, t}
 	switch o.Class {
@@ -169,6 +172,21 @@ func (w *world) validate(p *valkit.Peer, mon *valkit.Monitor, m valkit.Msg, t va
 			repro{Kind: "behaviour", Prefix: prefix, Probe: &pr})
 	}
 	return o, g
+}
+
+// confirmSlow: a call that took longer than valkit.HangAfter is reported as a hang only if the SAME call on the same
+// validator is that slow again three times in a row.  An input that makes the validator loop is slow every time; a stall of
+// the process on an overloaded machine (stop-the-world GC, no CPU for seconds) is not.
+func (w *world) confirmSlow(again func() bool) bool {
+	for k := 0; k < 3; k++ {
+		if !again() {
+			w.mu.Lock()
+			w.res.Counters["slow_calls_not_confirmed_as_hang"]++
+			w.mu.Unlock()
+			return false
+		}
+	}
+	return true
 }
 
 func firstLine(s string) string {
@@ -334,14 +352,28 @@ func (w *world) sweepPrefix(al alphabet, p pfx, order []int, leq func(a, b int) 
 	}
 	var peer *valkit.Peer
 	var mon *valkit.Monitor
-	rebuild := func(record bool) bool {
+	var rebuild func(record bool) bool
+	stalls := 0
+	rebuild = func(record bool) bool {
 		peer = w.env.NewPeer(w.realFork())
 		mon = w.newMonitor()
+		mark := len(evs)
 		if record {
 			evs = append(evs, event{E: "R"})
 		}
 		for k := 0; k+1 < len(p.steps); k += 2 {
 			o, g := w.validate(peer, mon, al.Alpha[p.steps[k]], al.Times[p.steps[k+1]], false, beh, k/2, prefix[:k/2])
+			if o.Class == "slow" { // the machine stalled during a prefix step: start the prefix again on a fresh validator
+				evs = evs[:mark]
+				if stalls++; stalls <= 5 {
+					return rebuild(record)
+				}
+				w.mu.Lock()
+				w.res.Notes = append(w.res.Notes, fmt.Sprintf("%s: given up after %d stalled prefix steps", beh, stalls))
+				w.res.Counters["irreproducible_prefixes"]++
+				w.mu.Unlock()
+				return false
+			}
 			if record {
 				evs = append(evs, event{E: "V", I: p.steps[k] + 1, T: p.steps[k+1] + 1, V: o.Class, R: o.Rule, G: g})
 			}
@@ -379,7 +411,7 @@ func (w *world) sweepPrefix(al alphabet, p pfx, order []int, leq func(a, b int) 
 				w.mu.Lock()
 				w.res.Counters["timing_unsafe_steps"]++
 				w.mu.Unlock()
-				if o.Class == "accept" {
+				if o.Class == "accept" || o.Class == "slow" { // "slow": the stalled call (and its repeats) may have been accepted
 					evs = append(evs, event{E: "B"})
 					if !rebuild(false) {
 						return evs, next
@@ -497,8 +529,8 @@ func (w *world) decoderGuard(name string, data []byte, f func()) {
 	}()
 	t0 := time.Now()
 	f()
-	if time.Since(t0) > valkit.HangAfter {
-		w.violate("validator-hang", fmt.Sprintf("%s took %v", name, time.Since(t0)), "bytes", 0,
+	if d := time.Since(t0); d > valkit.HangAfter && w.confirmSlow(func() bool { t1 := time.Now(); f(); return time.Since(t1) > valkit.HangAfter }) {
+		w.violate("validator-hang", fmt.Sprintf("%s took %v (and more than %v again in three repeats)", name, d, valkit.HangAfter), "bytes", 0,
 			repro{Kind: "decoder", Decoder: name, DataHex: hex.EncodeToString(data)})
 	}
 }
@@ -558,6 +590,9 @@ func (w *world) bytesMode(al alphabet, seed int64, flips, maxMsgs int) {
 	feed := func(p *valkit.Peer, mon *valkit.Monitor, prefix []step, topic string, data []byte, t valkit.TimePoint, heavy bool) {
 		lastCallStart.Store(time.Now().UnixNano())
 		o := p.ValidatePubsub(topic, data, t.Slot(), t.Offset(), heavy)
+		if o.Class == "hang" && !w.confirmSlow(func() bool { return p.ValidatePubsub(topic, data, t.Slot(), t.Offset(), heavy).Class == "hang" }) {
+			o.Class, o.TimeOK = "slow", false
+		}
 		lastCallStart.Store(0)
 		w.res.Steps++
 		r := repro{Kind: "bytes", Prefix: prefix, Topic: topic, DataHex: hex.EncodeToString(data), Time: &t}
@@ -907,8 +942,8 @@ func main() {
 	go func() {
 		for {
 			time.Sleep(200 * time.Millisecond)
-			if s := lastCallStart.Load(); s != 0 && time.Since(time.Unix(0, s)) > 10*time.Second {
-				w.violate("validator-hang", "a validation call did not return within 10 s (bulk mode watchdog)", "watchdog", 0, repro{Kind: "concurrent"})
+			if s := lastCallStart.Load(); s != 0 && time.Since(time.Unix(0, s)) > 30*time.Second { // far beyond any stall of a loaded machine
+				w.violate("validator-hang", "a validation call did not return within 30 s (bulk mode watchdog)", "watchdog", 0, repro{Kind: "concurrent"})
 				w.finish(*out)
 				os.Exit(0)
 			}
